@@ -1,3 +1,4 @@
 import XzVerif.Props.C07
 #print axioms Props.C07.C07_reader_decodes_every_legal_body
 #print axioms Props.C07.C07_tables
+#print axioms Props.C07.C07_reader_reads_every_legal_stream
